@@ -42,6 +42,7 @@ type Env struct {
 	Fast        bool            // setup phase: no delays
 	revTemplates map[types.UID]map[string]*corev1.PodTemplateSpec // CloneSet/STS/DS revision history
 	gcDirty     bool
+	gcDue       time.Time
 	Nodes       int // DaemonSet: number of nodes
 }
 
@@ -116,13 +117,13 @@ func (e *Env) onEvent(ev Event) {
 	switch ev.Key.GK {
 	case gkDeployment, gkCloneSet:
 		if ev.Type == EvDeleted {
-			e.gcDirty = true
+			e.markGC()
 			return
 		}
 		e.markDirty(ev.Key, e.delay())
 	case gkRS:
 		if ev.Type == EvDeleted {
-			e.gcDirty = true
+			e.markGC()
 		} else {
 			e.markDirty(ev.Key, e.delay())
 		}
@@ -135,8 +136,24 @@ func (e *Env) onEvent(ev Event) {
 		}
 	case gkRollout, gkBR:
 		if ev.Type == EvDeleted {
-			e.gcDirty = true
+			e.markGC()
 		}
+	}
+}
+
+// markGC: the garbage collector notices a deleted owner after a drawn lag.
+func (e *Env) markGC() {
+	if e.gcDirty {
+		return
+	}
+	e.gcDirty = true
+	d := time.Duration(0)
+	if !e.Fast && e.sim.Cfg.GCLagMaxMs > 0 {
+		d = time.Duration(e.sim.T.Next(e.sim.Cfg.GCLagMaxMs+1)) * time.Millisecond
+	}
+	e.gcDue = e.sim.Now().Add(d)
+	if d > 0 {
+		e.sim.After(d, func() {})
 	}
 }
 
@@ -149,7 +166,7 @@ func (e *Env) Options(s *Sim) []option {
 			opts = append(opts, option{"env:" + k.String(), func() { e.sync(kk) }})
 		}
 	}
-	if e.gcDirty {
+	if e.gcDirty && !now.Before(e.gcDue) {
 		opts = append(opts, option{"env:gc", func() { e.gc() }})
 	}
 	return opts
@@ -970,7 +987,8 @@ func (e *Env) gc() {
 		c := v.DeepCopyObject().(client.Object)
 		if err := gch.Delete(e.ctx, c); err == nil {
 			s.stat("env.gc-delete")
-			e.gcDirty = true // dependents of dependents
+			e.gcDirty = false
+			e.markGC() // dependents of dependents
 		}
 	}
 }
